@@ -192,6 +192,18 @@ D = {
  'C12-barrier-gives-up-r6': ('C12', 'write_barrier gives up after 2^16 spins and store() leaks the old table (round 6, independent rediscovery)', 'the last owner dropped while a delivery stays in a slow action on another thread: the pipe write end never closes'),
  'C10-add-signal-two-sections-r6': ('C10', 'Handle::add_signal: check and store of the id in two critical sections (round 6, independent rediscovery)', 'two threads add one signal to one instance: every delivery yields two records'),
  'C10-signalonly-load-store-r6': ('C10', 'SignalOnly::load as load + store(false) (round 6, independent rediscovery)', 'two batches of one instance walked by two threads: one delivery yielded twice'),
+ 'C01-barrier-skipped-in-forked-child': ('C01', 'HalfLock remembers the pid it was created in; write_barrier returns at once in another process', 'the registry created before fork(), a child with a second thread, a removal while a delivery runs on that thread: the removal does not wait'),
+ 'C01-action-holds-write-end-weakly-r6': ('C01', 'the iterator action holds the self-pipe write end weakly and upgrades it per delivery (round 6, independent rediscovery)', 'the last Handle dropped while a delivery is between upgrade and the end of the wake: the write end is closed inside the handler'),
+ 'C04-fallback-written-before-lock': ('C04', 'register stores the race fallback before it takes the main lock', 'two concurrent first registrations of two signals and a delivery of the first between its sigaction and its publication: the fallback names the other signal'),
+ 'C04-slot-dropped-with-last-action': ('C04', 'unregister drops the whole slot with the last action; Prev::execute skips the library\'s own handler', 'an iterator dropped (its action was the last), a first registration of another signal, a new registration of the first: the original handler is never chained again'),
+ 'C05-reregistration-replaces-slot': ('C05', 'a registration on an owned signal whose disposition is no longer the library handler replaces the whole slot', 'a foreign sigaction between two registrations of one signal: the earlier actions vanish, unregister of their ids returns false'),
+ 'C05-stop-emulation-signal-restore-r6': ('C05', 'emulate_default_handler (stop kinds) saves and restores the handler with signal() (round 6, independent rediscovery)', 'the emulation on an owned stop signal, then a delivery: SA_SIGINFO is gone'),
+ 'C11-close-takes-ids-lock-r6': ('C11', 'close() takes the ids mutex with unwrap() before the flag store (round 6, independent rediscovery)', 'a caught panicking add_signal, then close(): panics before setting the flag'),
+ 'C11-closed-check-after-callback-r6': ('C11', 'poll_pending looks at the closed flag only after the callback said true (round 6, independent rediscovery)', 'close(); pending(); wait() - the wake-up byte of the close was consumed by something else'),
+ 'C13-slot-new-inherits-flags-r6': ('C13', 'Slot::new inherits the previous handler\'s sa_flags and mask (round 6, independent rediscovery)', 'a one-shot previous handler: from the second delivery on no byte is written (or the process dies)'),
+ 'C13-wakefd-restores-flags-r6': ('C13', 'WakeFd restores the original file status flags on drop (round 6, independent rediscovery)', 'two registrations on dups of one pipe, one removed, a full pipe: the other blocks in write(2)'),
+ 'C17-zero-pid-means-none-r6': ('C17', 'Origin::extract treats pid 0 and uid 0 as "nothing filled in" on every platform (round 6, independent rediscovery)', 'a root sender outside the receiver\'s PID namespace'),
+ 'C17-nonpositive-code-is-user-r6': ('C17', 'extract.c classes unnamed non-positive si_code values as user-sent (round 6, independent rediscovery)', 'a POSIX timer: timer id and overrun reported as pid and uid'),
 }
 for name, (prop, change, needs) in D.items():
     d = os.path.join(ROOT, 'seeded', name)
